@@ -25,7 +25,12 @@ func main() {
 	flag.DurationVar(&opt.Timeout, "timeout", 0, "per-query timeout (default 20s quick, 120s thorough)")
 	baseline := flag.Bool("write-baseline", false, "record the obligations discharged by this run as the baseline of the property")
 	replay := flag.String("replay", "", "replay the case in this file on the real code")
+	aliasScan := flag.Bool("alias-scan", false, "print the alias-mutation scan over all contract packages (development)")
 	flag.Parse()
+	if *aliasScan {
+		drv.AliasReport(opt.Root, []string{"./common", "./contracts/alphabet", "./contracts/audit", "./contracts/balance", "./contracts/container", "./contracts/neofs", "./contracts/neofsid", "./contracts/netmap", "./contracts/nns", "./contracts/processing", "./contracts/proxy", "./contracts/reputation"})
+		return
+	}
 	if s := os.Getenv("VERIF_SEED"); s != "" {
 		opt.Seed, _ = strconv.Atoi(s)
 	}
